@@ -453,9 +453,15 @@ func (n *Node) print(b *strings.Builder, o Opts) {
 			b.WriteString(`\p{` + n.Name + `}`)
 		}
 	case KCondExpr:
-		b.WriteString("(?((?:")
-		n.Subs[0].print(b, o)
-		b.WriteString("))")
+		if n.Style == 1 && n.Subs[0].Kind == KLook {
+			// the lookaround itself is the condition's parenthesis
+			b.WriteString("(?")
+			n.Subs[0].print(b, o)
+		} else {
+			b.WriteString("(?((?:")
+			n.Subs[0].print(b, o)
+			b.WriteString("))")
+		}
 		printBranch(b, n.Subs[1], o)
 		b.WriteByte('|')
 		printBranch(b, n.Subs[2], o)
